@@ -145,7 +145,8 @@ class Check:
         """Build the property's theorem file and audit the axioms of every theorem in it."""
         module = module or 'PlinioVerif.Props.%s' % self.prop
         targets = [module] + list(extra_targets)
-        cmd = 'cd lean && lake build %s && lake env lean .audit/%s.lean' % (' '.join(targets), self.prop)
+        aname = module.split('.')[-1]
+        cmd = 'cd lean && lake build %s && lake env lean .audit/%s.lean' % (' '.join(targets), aname)
         self.checker_cmds.append(cmd)
         rc, out = lake(['build'] + targets)
         if rc != 0:
@@ -159,7 +160,7 @@ class Check:
             if m:
                 self.proof_broken.append('forbidden token %r in %s' % (m.group(0).strip(), os.path.relpath(f, VERIF)))
         os.makedirs(os.path.join(LEAN_DIR, '.audit'), exist_ok=True)
-        apath = os.path.join(LEAN_DIR, '.audit', '%s.lean' % self.prop)
+        apath = os.path.join(LEAN_DIR, '.audit', '%s.lean' % aname)
         with open(apath, 'w') as fh:
             fh.write(AUDIT_TEMPLATE.format(module=module))
         rc, out, err = run_lean_file(apath)
